@@ -25,7 +25,8 @@ func main() {
 	replay := flag.String("replay", "", "replay a counterexample record natively")
 	cpuprof := flag.String("cpuprofile", "", "write cpu profile")
 	flag.Parse()
-	rdebug.SetGCPercent(800)
+	rdebug.SetGCPercent(300)
+	rdebug.SetMemoryLimit(16 << 30) // soft limit: the collector works harder instead of the process growing
 	if *cpuprof != "" {
 		f, _ := os.Create(*cpuprof)
 		pprof.StartCPUProfile(f)
